@@ -76,7 +76,7 @@ def explainThi (k t : Mol) : String :=
     | _, _ => some "row-count"
   match atoms k.atoms t.atoms with
   | some e => e
-  | none => (rows k.adj t.adj).getD "?"
+  | none => (rows k.adj t.adj).getD "dangling-aromatic-bond"
 
 def handleKekn (a k : Mol) (sssr : List (List Nat)) : String :=
   match prepareRings a sssr with
